@@ -1561,6 +1561,14 @@ class GateauxDerivativeRuleset(GenericDerivativeRuleset):
 
         # FIXME: Handle other coefficient derivatives: oprimes =
         # self._cd.get(o)
+        if self._cd.get(o) is not None:
+            # The contribution of a user-supplied coefficient derivative to the
+            # gradient of the coefficient is not implemented (see below):
+            # refuse instead of silently treating it as zero
+            raise NotImplementedError(
+                "Gateaux derivative of the gradient of a coefficient with a "
+                "user-supplied coefficient derivative is not implemented."
+            )
 
         if 0:
             oprimes = self._cd.get(o)
